@@ -58,7 +58,7 @@ use super::graph::{Vertex as GraphVertexTrait, Edge as GraphEdgeTrait}; // index
 //@ include units/C15/cfg_merge.rs
 //@ include units/C15/cfg_budget.rs
 //@ mode full
-//@ include units/C06/il_function.rs
+//@ include units/C06/il_extra.rs
 proof fn vf_canary_il() ensures false { /* padding: tools/verdict.py compares rustc byte offsets with Python character offsets; non-ASCII characters in shared files shift spans by a few bytes, this keeps the shifted span inside the canary ........................................................................ */ }
 } // mod il
 
